@@ -3,7 +3,7 @@
 # check of its property (or the checks listed in seeded/<name>/checks), expects a VIOLATION line WITHOUT
 # no-failing-input-found, un-applies it.  Finishes with the checks on the clean tree so that evidence is current.
 cd /verif
-names="$@"; [ -z "$names" ] && names=$(ls seeded | grep -v README)
+names="$@"; [ -z "$names" ] && names=$(ls seeded | grep -v README | grep -v harmless)
 declare -A touched
 fail=0
 for n in $names; do
